@@ -5,8 +5,8 @@ package main
 // only at new symbolic branches, queueing the alternative.
 
 import (
-	"go/token"
 	"fmt"
+	"go/token"
 	"os"
 	"sort"
 	"strings"
@@ -52,22 +52,23 @@ type KnownFinding struct {
 }
 
 type Config struct {
-	Harness     string
-	Pkg         string
-	Workers     int
-	SolverKind  string
-	TimeoutMs   int
-	MaxSteps    int
-	MaxPaths    int
-	WitnessEach int // sample every n-th ok path for native validation (0 = none)
-	Known       []KnownFinding
-	Verbose     bool
-	SolverLog   string
-	Seed        int64
-	NoMerge     bool
-	Fixed       map[string]uint64 // concrete run: every input takes its value from here (missing = 0)
-	AltSolver   string            // second opinion on final obligations ("" = none)
-	Deadline    time.Time
+	Harness       string
+	Pkg           string
+	Workers       int
+	SolverKind    string
+	TimeoutMs     int
+	MaxSteps      int
+	MaxPaths      int
+	WitnessEach   int  // sample every n-th ok path for native validation (0 = none)
+	BlockedModels bool // attach the inputs of paths that end blocked (harnesses where blocking is a violation)
+	Known         []KnownFinding
+	Verbose       bool
+	SolverLog     string
+	Seed          int64
+	NoMerge       bool
+	Fixed         map[string]uint64 // concrete run: every input takes its value from here (missing = 0)
+	AltSolver     string            // second opinion on final obligations ("" = none)
+	Deadline      time.Time
 }
 
 type Stats struct {
@@ -293,11 +294,11 @@ type inputVar struct {
 }
 
 type Exec struct {
-	x    *Explorer
-	ts   *TermStore
-	sv   *Solver
-	alt  *Solver
-	prog *ssa.Program
+	x       *Explorer
+	ts      *TermStore
+	sv      *Solver
+	alt     *Solver
+	prog    *ssa.Program
 	lastPos token.Pos // position of the instruction being executed (fork profile)
 
 	decisions []Decision
@@ -391,6 +392,11 @@ func (e *Exec) runPath() (res *PathResult) {
 		res.Reach = e.reach
 		res.Known = e.known
 		res.Inconc = e.inconclusive
+		if res.Kind == "blocked" && e.x.cfg.BlockedModels {
+			// the harness treats blocking as a violation (e.g. Close must return): give the path's inputs
+			e.attachWitness(res)
+			res.Stack = e.stackString()
+		}
 		if res.Kind == "ok" && e.x.cfg.WitnessEach > 0 {
 			e.x.mu.Lock()
 			n := e.x.okSeen
